@@ -187,6 +187,7 @@ class World:
         self.variant_of: dict[str, str] = {}
         self.files: dict[str, dict] = {}  # real path -> {"macros": [...], "imports": [(style, text, target real path)]}
         self.notes: list[str] = []
+        self.lib = None
 
     def dump(self) -> dict:
         return {"vfs": self.vfs.dump(), "main": self.main, "lookup": self.lookup, "file_of": self.file_of,
@@ -214,6 +215,7 @@ def gen_world(lib: Lib, rng: random.Random, knobs: dict | None = None) -> World:
     if knobs:
         k.update(knobs)
     w = World()
+    w.lib = lib
     nfiles = k["files"]
     # files[0] is the main file; macro files get directories and names
     paths = [posixpath.join(w.main)]
